@@ -31,7 +31,7 @@ MACROS = ["mac0", "mac1"]
 FCODES = ["F0"]
 YCODES = ["Y0"]
 LOOPS = ["lp"]
-ALLNAMES = INTS + BOOLS + ENUMS + STRS + RAWS + HOOKS + MACROS + FCODES + YCODES + LOOPS + ["undef", "EA", "EB", "finish", "x"]
+ALLNAMES = INTS + BOOLS + ENUMS + STRS + RAWS + HOOKS + MACROS + FCODES + YCODES + LOOPS + ["undef", "EA", "EB", "finish", "x", "y", "x"]
 
 name = st.sampled_from(ALLNAMES)
 
@@ -206,10 +206,12 @@ ODD_ARGV = [[], ["-O0"], ["-O3"], ["-O0", "-fcollapse-transition-ranges"], ["-fn
 def wild_source(draw):
     decls = draw(decls_text())
     stmts = draw(st.lists(stmt_text(draw(st.integers(0, 2))), min_size=1, max_size=5))
-    parser = "parser { %s }" % "\n    ".join(stmts)
+    ws = draw(st.sampled_from(["\n    ", "\n    ", "\n    ", " ", "\t", "\r\n", "\r", "\n\x0c  ", "\n// comment\n"]))
+    parser = "parser {%s%s }" % (ws, ws.join(stmts))
     # declarations may come before or after the parser
     k = draw(st.integers(0, len(decls)))
-    src = "\n".join(decls[:k] + [parser] + decls[k:]) + "\n"
+    sep = draw(st.sampled_from(["\n", "\n", "\n", "\r\n", "\n\x0c", " "]))
+    src = sep.join(decls[:k] + [parser] + decls[k:]) + "\n"
     return src, draw(st.sampled_from(ODD_ARGV))
 
 
@@ -220,6 +222,31 @@ def typed_source(draw):
                         kinds={"yield": 2 if mode == "yield" else 0, "finish": 2}, wide_bytes=0.3)
     prog = draw(gen.program(cfg))
     return prog.source(), list(prog.argv) + draw(st.sampled_from(ODD_ARGV))
+
+
+@st.composite
+def mutated_typed_source(draw):
+    """A well-typed generated program with one identifier occurrence replaced by another declared name (usually of another kind),
+    or one operator / keyword swapped: ill-typed but deep enough to reach the compile and codegen stages."""
+    import re
+    src, argv = draw(typed_source())
+    idents = [(m.start(), m.end(), m.group(0)) for m in re.finditer(r"\b(n\d|b\d|e\d|s\d|r\d|h\d|F\d|Y\d|lp\d|EA|EB|EC)\b", src)]
+    pool = sorted(set(i[2] for i in idents)) + ["undef"]
+    for _ in range(draw(st.integers(1, 2))):
+        if not idents:
+            break
+        a, b, old = idents[draw(st.integers(0, len(idents) - 1))]
+        new = draw(st.sampled_from(pool))
+        src = src[:a] + new + src[b:]
+        idents = [(m.start(), m.end(), m.group(0)) for m in re.finditer(r"\b(n\d|b\d|e\d|s\d|r\d|h\d|F\d|Y\d|lp\d|EA|EB|EC)\b", src)]
+    if draw(st.integers(0, 3)) == 0:
+        swaps = [(" += ", " = "), (" = ", " += "), ("true", "1"), ("false", "[1 + 2]"), (" == ", " + "), ("finish", "yield")]
+        o, n = draw(st.sampled_from(swaps))
+        pos = [m.start() for m in re.finditer(re.escape(o), src)]
+        if pos:
+            p_ = pos[draw(st.integers(0, len(pos) - 1))]
+            src = src[:p_] + n + src[p_ + len(o):]
+    return src, argv
 
 
 class Hang(Exception):
@@ -272,7 +299,7 @@ def worker(job):
         if len(shard.samples) < 2 and len(src) < 400:
             shard.sample({"source": src, "argv": argv})
 
-    strat = wild_source() if which == "wild" else typed_source()
+    strat = wild_source() if which == "wild" else (typed_source() if which == "typed" else mutated_typed_source())
     common.hyp_run(shard, body, strat, n, seed, known_keys=known, stop_at=stop_at, shrink=False)
     # ddmin-ish: try to shorten each bucket's source by dropping lines / statements
     for b, info in buckets.items():
@@ -311,6 +338,10 @@ FIXED_SOURCES = [
     ('out int n0;\nparser { n0 += "a"; }', []), ('parser { finish; }', []), ('parser { case { else -> { } } }', []),
     ('macro mac0() { mac0(); }\nparser { mac0(); }', []), ('out int{unsigned, size 16} n0;\nparser { "a"; }', []),
     ('out int n0 = 0;\nparser { case { "a" -> { if n0 == 1 { n0 = 2; } } }\n n0 = 3; }', []), ('out str[3] s0;\nparser { s0 += [65]; "a"; }', ["-O2"]),
+    ('out bool b0 = false;\nparser { "a"; b0 = [1 + 2]; }', []), ('out int n0 = 0;\nmacro m(expr e) { n0 = e; }\nparser { "a"; m(e); }', []),
+    ('parser {\n\x0c  "a"; undefinedhook(); }', []), ('parser {\r  "a"; undefinedhook(); }', []),
+    ('macro m() { loop { loop { loop { loop { loop { loop { loop { loop { loop { loop { loop { "a"; m(); } } } } } } } } } } } }\nparser { m(); }', []),
+    ('out enum{EA,EB} e0;\nparser { "a"; e0 = true; }', []), ('out enum{EA,EB} e0;\nparser { "a"; if e0 == false { "b"; } }', []),
     ('parser { ""; }', []), ('parser { "6"b; }', []), ('parser { /a{3,2}/; }', []), ('parser { "é"; }', []), ('parser { /[c-a]/; }', []),
 ]
 
@@ -337,9 +368,9 @@ def main(ctx):
     ctx.pmap(fixed_worker, [(open(p).read(), a, known) for p in corpus for a in ([], ["-O3", "-feof-support", "-fyield-support"])])
     n = 1200 if quick else 12000
     stop_at = time.time() + (70 if quick else 1500)
-    ctx.pmap(worker, [(ctx.seed * 100003 + i, n, known, stop_at, "wild" if i % 4 != 3 else "typed") for i in range(common.NPROC)])
+    ctx.pmap(worker, [(ctx.seed * 100003 + i, n, known, stop_at, ("wild", "wild", "mutated", "typed")[i % 4]) for i in range(common.NPROC)])
     ctx.rule = ("case = (source text from an untyped grammar-based generator [3/4] or from the typed program generator with the lookahead constraint "
-                "relaxed [1/4], option set from a list of odd-but-legal mixes); evaluations = compilations. Non-trivial: source reaching an error path "
+                "relaxed [1/4, half of them with one identifier / operator mutated], option set from a list of odd-but-legal mixes); evaluations = compilations. Non-trivial: source reaching an error path "
                 "(diagnosed), distinct by (stage, error class, message head). All crash buckets (exception type, innermost nmfu function) of a run are "
                 "reported with a greedily minimised source; 20 s alarm per compilation.")
     ctx.assumptions = ["diagnosed = lark.LarkError | nmfu.NMFUError | RuntimeError from the command line, with str() rendering",
